@@ -77,18 +77,17 @@ func (c *Case) Exec(t *eng.T) {
 			t.Fail("inherit:route-unbuffered:"+c.Label, "%s: ExecuteWriterUnbuffered of %s gives %q (error %v, panic %s %s); Execute gives %q [%s]", c.Label, r.Name, buf.String(), uerr, site, msg, o.S, c.ID())
 			return
 		}
-		for _, via := range []string{"{% include \"" + r.Name + "\" %}", "{% ssi \"" + r.Name + "\" parsed %}", "{% include name %}"} {
-			wt, wout := px.Compile(set, "<"+via+">")
-			if wt == nil {
-				t.Fail("inherit:route-compile:"+c.Label, "%s: %s does not compile: %s [%s]", c.Label, via, wout, c.ID())
-				return
-			}
-			wc := ctx()
-			wc["name"] = r.Name
-			if wo := px.Exec(wt, wc); wo.Failed() || wo.S != "<"+o.S+">" {
-				t.Fail("inherit:route-pulled-in:"+c.Label, "%s: <%s> renders %s; Execute of %s gives %q [%s]", c.Label, via, wo, r.Name, o.S, c.ID())
-				return
-			}
+		via := "<{% include \"" + r.Name + "\" %}|{% ssi \"" + r.Name + "\" parsed %}|{% include name %}>"
+		wt, wout := px.Compile(set, via)
+		if wt == nil {
+			t.Fail("inherit:route-compile:"+c.Label, "%s: %s does not compile: %s [%s]", c.Label, via, wout, c.ID())
+			return
+		}
+		wc := ctx()
+		wc["name"] = r.Name
+		if wo := px.Exec(wt, wc); wo.Failed() || wo.S != "<"+o.S+"|"+o.S+"|"+o.S+">" {
+			t.Fail("inherit:route-pulled-in:"+c.Label, "%s: %s renders %s; Execute of %s gives %q [%s]", c.Label, via, wo, r.Name, o.S, c.ID())
+			return
 		}
 	}
 	t.Outcome(strings.Join(outs, "|"))
